@@ -26,7 +26,36 @@ fn show(c: Option<Captures<'_>>) -> String {
 }
 
 fn op(re: &Regex, kind: usize, text: &str) -> String {
-    match kind % 5 {
+    match kind % 7 {
+        5 => {
+            let mut out = String::new();
+            for piece in re.splitn(text, 4) {
+                match piece {
+                    Ok(p) => out.push_str(&format!("[{}]", p)),
+                    Err(e) => out.push_str(&format!("Err({:?})", e)),
+                }
+            }
+            out
+        }
+        6 => {
+            // every group of every match, through the sub-capture iterator
+            let mut out = String::new();
+            for c in re.captures_iter(text).take(4) {
+                match c {
+                    Ok(c) => {
+                        for g in c.iter() {
+                            match g {
+                                Some(m) => out.push_str(&format!("({},{})", m.start(), m.end())),
+                                None => out.push('_'),
+                            }
+                        }
+                        out.push(';');
+                    }
+                    Err(e) => out.push_str(&format!("Err({:?})", e)),
+                }
+            }
+            format!("{} {:?}", out, re.as_str())
+        }
         4 => {
             // group metadata (the shared name table) and access by name
             let names: Vec<String> = re.capture_names().map(|n| n.unwrap_or("_").to_string()).collect();
